@@ -488,6 +488,8 @@ func (p *ProjectRunner) runningProcessesReverseDependencies() map[string]map[str
 					dep := make(map[string]*Process)
 					dep[process.getName()] = process
 					reverseDependencies[runningProc.getName()] = dep
+				} else {
+					reverseDependencies[runningProc.getName()][process.getName()] = process
 				}
 			} else {
 				continue
